@@ -1,331 +1,26 @@
-// Command driver runs the cases of one property check against the real code
-// and writes one JSON line per case (a "start" line before, a "done" line
-// after) to the journal given by -out.
+// Command driver runs the cases of one property check (see package fw).
 package main
 
 import (
-	"bufio"
-	"encoding/json"
-	"flag"
-	"fmt"
 	"os"
-	"runtime"
-	"runtime/debug"
 	"sort"
 	"strings"
-	"sync"
-	"time"
 
-	log "github.com/sirupsen/logrus"
-
-	"go.amzn.com/verifharness/vh"
+	"go.amzn.com/verifharness/fw"
 )
 
-// Violation is one refutation of a clause, with a stable signature.
-type Violation struct {
-	Sig    string      `json:"sig"`
-	What   string      `json:"what"`
-	Detail interface{} `json:"detail,omitempty"`
-}
+type (
+	Ctx       = fw.Ctx
+	Case      = fw.Case
+	Violation = fw.Violation
+	Generator = fw.Generator
+)
 
-// Result is the journal record of one executed case.
-type Result struct {
-	Done         string            `json:"done"`
-	Class        string            `json:"class,omitempty"`
-	Desc         interface{}       `json:"desc,omitempty"`
-	Viol         []Violation       `json:"viol,omitempty"`
-	Clauses      map[string]int    `json:"clauses,omitempty"`
-	Trace        string            `json:"trace,omitempty"` // normalised observed trace hash input
-	Nontrivial   bool              `json:"nontrivial"`
-	Inconclusive string            `json:"inconclusive,omitempty"`
-	Hooks        map[string]int    `json:"hooks,omitempty"`
-	States       []string          `json:"states,omitempty"`
-	Counters     map[string]int    `json:"counters,omitempty"`
-	WallMs       int64             `json:"wall_ms"`
-	Sample       interface{}       `json:"sample,omitempty"`
-	Hang         bool              `json:"hang,omitempty"`
-	Notes        []string          `json:"notes,omitempty"`
-	Interleaving string            `json:"interleaving,omitempty"`
-}
+var registry = fw.Registry
 
-// Ctx is handed to a running case.
-type Ctx struct {
-	mu   sync.Mutex
-	res  Result
-	Tier string
-	Seed int64
-	WantSample bool
-	taint string
-}
+func register(prop string, g Generator) { fw.Register(prop, g) }
 
-func (c *Ctx) Violate(sig, what string, detail interface{}) {
-	c.mu.Lock()
-	defer c.mu.Unlock()
-	for _, v := range c.res.Viol {
-		if v.Sig == sig {
-			return
-		}
-	}
-	c.res.Viol = append(c.res.Viol, Violation{Sig: sig, What: what, Detail: detail})
-}
-
-func (c *Ctx) Violated() bool {
-	c.mu.Lock()
-	defer c.mu.Unlock()
-	return len(c.res.Viol) > 0
-}
-
-// Clause counts one non-vacuous evaluation of an oracle clause.
-func (c *Ctx) Clause(name string) { c.ClauseN(name, 1) }
-
-func (c *Ctx) ClauseN(name string, n int) {
-	c.mu.Lock()
-	defer c.mu.Unlock()
-	if c.res.Clauses == nil {
-		c.res.Clauses = map[string]int{}
-	}
-	c.res.Clauses[name] += n
-}
-
-func (c *Ctx) Counter(name string, n int) {
-	c.mu.Lock()
-	defer c.mu.Unlock()
-	if c.res.Counters == nil {
-		c.res.Counters = map[string]int{}
-	}
-	c.res.Counters[name] += n
-}
-
-// Check evaluates a clause: counts it and records a violation if !ok.
-func (c *Ctx) Check(ok bool, clause, sig, what string, detail interface{}) bool {
-	c.Clause(clause)
-	if !ok {
-		c.Violate(sig, what, detail)
-	}
-	return ok
-}
-
-// Taint marks the case as affected by a named, separately recorded defect
-// (see known_findings.jsonl): when the case ends, every violation signature
-// of the case is replaced by <property>/tainted/<name>, so that the listed
-// finding is recognised whatever clause it happened to trip.
-func (c *Ctx) Taint(name string) {
-	c.mu.Lock()
-	defer c.mu.Unlock()
-	if c.taint == "" {
-		c.taint = name
-	}
-}
-
-func (c *Ctx) Inconclusive(reason string) {
-	c.mu.Lock()
-	defer c.mu.Unlock()
-	if c.res.Inconclusive == "" {
-		c.res.Inconclusive = reason
-	}
-}
-
-func (c *Ctx) Note(format string, a ...interface{}) {
-	c.mu.Lock()
-	defer c.mu.Unlock()
-	if len(c.res.Notes) < 20 {
-		c.res.Notes = append(c.res.Notes, fmt.Sprintf(format, a...))
-	}
-}
-
-func (c *Ctx) SetTrace(t string, nontrivial bool) {
-	c.mu.Lock()
-	defer c.mu.Unlock()
-	c.res.Trace = t
-	c.res.Nontrivial = nontrivial
-}
-
-func (c *Ctx) SetInterleaving(s string) {
-	c.mu.Lock()
-	defer c.mu.Unlock()
-	c.res.Interleaving = s
-}
-
-func (c *Ctx) State(s string) {
-	c.mu.Lock()
-	defer c.mu.Unlock()
-	for _, x := range c.res.States {
-		if x == s {
-			return
-		}
-	}
-	c.res.States = append(c.res.States, s)
-}
-
-func (c *Ctx) SetSample(s interface{}) {
-	c.mu.Lock()
-	defer c.mu.Unlock()
-	c.res.Sample = s
-}
-
-func (c *Ctx) SetHooks(h map[string]int) {
-	c.mu.Lock()
-	defer c.mu.Unlock()
-	c.res.Hooks = h
-}
-
-// Case is one unit of work of a check.
-type Case struct {
-	ID      string
-	Class   string
-	Desc    interface{}
-	Timeout time.Duration
-	Run     func(c *Ctx)
-}
-
-// Generator produces the deterministic case list of a property.
-type Generator func(tier string, seed int64) []Case
-
-var registry = map[string]Generator{}
-
-func register(prop string, g Generator) { registry[prop] = g }
-
-func main() {
-	var (
-		tier    = flag.String("tier", "quick", "quick|thorough")
-		seed    = flag.Int64("seed", 1, "seed")
-		shard   = flag.Int("shard", 0, "shard index")
-		nshards = flag.Int("nshards", 1, "number of shards")
-		out     = flag.String("out", "", "journal file (appended)")
-		only    = flag.String("only", "", "run only this case id")
-		after   = flag.String("after", "", "skip cases up to and including this id (resume)")
-		list    = flag.Bool("list", false, "list case ids and exit")
-		portLo  = flag.Int("portlo", 20000, "first port of this process's range")
-		portHi  = flag.Int("porthi", 20400, "end of this process's port range")
-		sampleN = flag.Int("samples", 3, "attach an observed trace to the first N cases")
-	)
-	flag.Parse()
-	if flag.NArg() != 1 {
-		fmt.Fprintln(os.Stderr, "usage: driver [flags] <property>")
-		os.Exit(64)
-	}
-	prop := flag.Arg(0)
-	gen, ok := registry[prop]
-	if !ok {
-		fmt.Fprintln(os.Stderr, "unknown property", prop)
-		os.Exit(64)
-	}
-	debug.SetGCPercent(100)
-	log.SetLevel(log.PanicLevel)
-	vh.SetPortRange(*portLo, *portHi)
-
-	cases := gen(*tier, *seed)
-	if *list {
-		for _, c := range cases {
-			fmt.Println(c.ID)
-		}
-		return
-	}
-	var w *bufio.Writer
-	var f *os.File
-	if *out != "" {
-		var err error
-		f, err = os.OpenFile(*out, os.O_CREATE|os.O_APPEND|os.O_WRONLY, 0o644)
-		if err != nil {
-			fmt.Fprintln(os.Stderr, err)
-			os.Exit(70)
-		}
-		w = bufio.NewWriter(f)
-	} else {
-		w = bufio.NewWriter(os.Stdout)
-	}
-	emit := func(v interface{}) {
-		b, err := json.Marshal(v)
-		if err != nil {
-			b, _ = json.Marshal(map[string]string{"marshal_error": err.Error()})
-		}
-		w.Write(b)
-		w.WriteByte('\n')
-		w.Flush()
-		if f != nil {
-			f.Sync()
-		}
-	}
-	skipping := *after != ""
-	nrun := 0
-	lastID := *after
-	for idx, cs := range cases {
-		if *only != "" {
-			if cs.ID != *only {
-				continue
-			}
-		} else {
-			if idx%*nshards != *shard {
-				continue
-			}
-			if skipping {
-				if cs.ID == *after {
-					skipping = false
-				}
-				continue
-			}
-		}
-		if vh.PortsLeft() < 12 && nrun > 0 {
-			// every emulator instance keeps its TCP port until the process ends:
-			// hand over to a fresh process
-			emit(map[string]interface{}{"paused_after": lastID, "ran": nrun})
-			return
-		}
-		lastID = cs.ID
-		emit(map[string]string{"start": cs.ID})
-		ctx := &Ctx{Tier: *tier, Seed: *seed, WantSample: nrun < *sampleN || *only != ""}
-		ctx.res.Done = cs.ID
-		ctx.res.Class = cs.Class
-		ctx.res.Desc = cs.Desc
-		to := cs.Timeout
-		if to == 0 {
-			to = 30 * time.Second
-		}
-		t0 := time.Now()
-		done := make(chan struct{})
-		go func() {
-			defer close(done)
-			cs.Run(ctx)
-		}()
-		select {
-		case <-done:
-		case <-time.After(to):
-			// wedge: dump goroutines, record, and leave (state is unusable)
-			buf := make([]byte, 4<<20)
-			n := runtime.Stack(buf, true)
-			fmt.Fprintf(os.Stderr, "=== HANG in case %s after %s ===\n%s\n", cs.ID, to, buf[:n])
-			ctx.mu.Lock()
-			ctx.res.Hang = true
-			ctx.res.WallMs = time.Since(t0).Milliseconds()
-			r := ctx.res
-			ctx.mu.Unlock()
-			emit(r)
-			os.Exit(3)
-		}
-		ctx.mu.Lock()
-		ctx.res.WallMs = time.Since(t0).Milliseconds()
-		if ctx.taint != "" && len(ctx.res.Viol) > 0 {
-			byProp := map[string]bool{}
-			var nv []Violation
-			for _, v := range ctx.res.Viol {
-				p := v.Sig
-				if i := strings.Index(p, "/"); i > 0 {
-					p = p[:i]
-				}
-				if !byProp[p] {
-					byProp[p] = true
-					nv = append(nv, Violation{Sig: p + "/tainted/" + ctx.taint, What: "[" + ctx.taint + "] " + v.What, Detail: v.Detail})
-				}
-			}
-			ctx.res.Viol = nv
-		}
-		r := ctx.res
-		ctx.mu.Unlock()
-		emit(r)
-		nrun++
-	}
-	emit(map[string]interface{}{"shard_complete": *shard, "ran": nrun})
-}
+func main() { fw.Main(os.Args[1:]) }
 
 // ---- small helpers shared by the property files ----
 
